@@ -15,7 +15,10 @@ fn main() {
 
 fn generate_char_fn_ranges(f: fn(char) -> bool) -> Vec<(u32, u32)> {
     let mut ranges: Vec<(u32, u32)> = vec![];
-    let mut current_range_start: Option<u32> = None;
+
+    // Start of the current range, and the last char in it. We can't use `i - 1` as the end of a
+    // range as it may not be a char (when `i` is the first char after the surrogates).
+    let mut current_range: Option<(u32, u32)> = None;
 
     for i in 0..=u32::from(char::MAX) {
         let c = match char::try_from(i) {
@@ -24,12 +27,18 @@ fn generate_char_fn_ranges(f: fn(char) -> bool) -> Vec<(u32, u32)> {
         };
 
         if f(c) {
-            if current_range_start.is_none() {
-                current_range_start = Some(i);
+            match &mut current_range {
+                None => current_range = Some((i, i)),
+                Some((_, range_end)) => *range_end = i,
             }
-        } else if let Some(current_range_start) = current_range_start.take() {
-            ranges.push((current_range_start, i - 1));
+        } else if let Some(range) = current_range.take() {
+            ranges.push(range);
         }
+    }
+
+    // Range that includes `char::MAX`
+    if let Some(range) = current_range {
+        ranges.push(range);
     }
 
     ranges
